@@ -53,6 +53,8 @@ def mutable_defaults(module_names):
         except Exception:
             continue
         for name, obj in vars(m).items():
+            if inspect.isfunction(obj):
+                obj = inspect.unwrap(obj)          # look through contract wrappers at the repository's own function
             if inspect.isfunction(obj) and obj.__module__ == mn:
                 if obj.__defaults__ or obj.__kwdefaults__:
                     out[f'{mn}.{name}.__defaults__'] = fp((obj.__defaults__, obj.__kwdefaults__))
